@@ -1,16 +1,16 @@
 SPECIFICATION GenSpec
 CONSTANTS
   Nodes = {"n1", "n2"}
-  MaxUid = 2
+  MaxUid = 3
   Repairs = {}
   MaxW = 4
   Ttls = {0}
-  Pars <- P1
+  Pars <- P2
   MaxNow = 2
-  K = 6
+  K = 7
   TailLen = 2
   Biased = FALSE
-  GenFaults <- F1
+  GenFaults <- F2
 VIEW GenView
 CONSTRAINT GenBound
 INVARIANT GenPrint
